@@ -348,4 +348,17 @@ def ru_names_bound(ctx: Ctx) -> None:
     names_rule(ctx)
 
 
-RULES = [r1_per_class_length_agreement, r2_opcode_emitters, r3_traversal_agreement, r4_state_dependent_width_rechecked, r5_position_bookkeeping, r6_address_advance, r7_incbin_symbols, rb_binding_agreement, rm_no_process_lifetime_results, ru_names_bound]
+
+def r8_blocks_are_placed_where_labels_say(ctx: Ctx) -> None:
+    """a label is only as good as the place its bytes end up at: the block accumulator of Program.emit (reset after each flush, flushed on `*=`
+    only), the writers' record placement, and the bank tables the addresses are translated with (C03.R2, C03.R4, C04.R2, C04.R3)"""
+    from .c03 import r2_accumulate_then_flush, r4_writers_place_blocks
+    from .c04 import r2_mirror_construction, r3_argument_binding
+
+    r2_accumulate_then_flush(ctx)
+    r4_writers_place_blocks(ctx)
+    r2_mirror_construction(ctx)
+    r3_argument_binding(ctx)
+
+
+RULES = [r1_per_class_length_agreement, r2_opcode_emitters, r3_traversal_agreement, r4_state_dependent_width_rechecked, r5_position_bookkeeping, r6_address_advance, r7_incbin_symbols, r8_blocks_are_placed_where_labels_say, rb_binding_agreement, rm_no_process_lifetime_results, ru_names_bound]
